@@ -1,12 +1,11 @@
 (* Line protocol around the extracted model: one request per line "op arg arg ...",
    one reply per line. Unknown op -> "?" ; exception -> "!exn <msg>". *)
-open Model
-open Conv
-
 let handlers : (string, string list -> string) Hashtbl.t = Hashtbl.create 64
 let reg name f = Hashtbl.replace handlers name f
 
-let () = Ops.register reg
+let () =
+  reg "ping" (fun _ -> "pong");
+  Stdlib.List.iter (fun r -> r reg) !Conv.registrars
 
 let () =
   (try
